@@ -18,6 +18,12 @@ SHAPES = [
     ("and", 0, ("or", 1, ("and", 2, 3))), ("or", 0, ("and", 1, ("or", 2, 3))),
     ("or", ("and", 0, 1), ("and", 0, 2)), ("and", ("or", 0, 1), ("or", 0, 2)),
     ("and", 0, 0), ("or", 0, ("and", 0, 1)), ("and", 2, ("or", 0, 1), 3),
+    # sixth seed round: a gene named twice in a flat rule; three levels with a gene shared between the alternatives; pairs
+    # that have the same operator on top and the same genes per operand but combine them differently
+    ("or", 0, 1, 0), ("and", 0, 1, 0),
+    ("or", ("and", 0, ("or", 1, 2)), ("and", 1, 3)),
+    ("or", ("and", 0, ("or", 1, 2)), 3), ("or", ("and", 0, 1, 2), 3),
+    ("and", ("or", 0, ("and", 1, 2)), 3), ("and", ("or", 0, 1, 2), 3),
 ]
 
 
